@@ -31,6 +31,7 @@ func Scenarios(prop string) []gx.Sc {
 		{Name: "cg?m=1&np=1&n=2&mode=all&ns=2&gates=" + gates + "&faults=" + faults + ca, Q: 2, T: 3},
 		{Name: "cg?m=1&np=1&n=3&mode=k1&ns=2&init=valid&gates=" + gates + "&faults=" + faults + ca, Q: 2, T: 3},
 		{Name: "cg?m=1&np=1&n=2&mode=ret&ns=2&init=oor&gates=" + gates + "&faults=" + faults + ca, Q: 2, T: 3},
+		{Name: "cg?m=1&np=1&n=2&mode=k1&ns=2&init=zero&gates=" + gates + "&faults=" + faults + ca, Q: 1, T: 2},
 		{Name: "cg?m=2&np=1&n=2&mode=all&ns=2&gates=" + gates + "&faults=" + faults + ca, Q: 2, T: 3},
 		{Name: "cg?m=1&np=2&n=2&mode=k2&ns=1&strategy=roundrobin&gates=" + gates + "&faults=" + faults + ca, Q: 2, T: 3},
 		{Name: "cg?m=1&np=1&n=2&mode=all&ns=1&setuperr=1&gates=" + gates + "&faults=" + faults + ca, Q: 2, T: 3},
